@@ -2,8 +2,9 @@
 // opaque; the two constructors the text calls are external_body and record their
 // arguments through uninterpreted accessors, so the postcondition can speak about
 // the channel values that reach `Color::new_rgba`.
-pub struct Number { }
-pub struct Color { }
+// opaque but not one-value types: distinct numbers and colours must be distinguishable in the contracts
+pub struct Number { pub tag: u64 }
+pub struct Color { pub tag: u64 }
 pub enum ColorFormat { Literal(String) }
 pub uninterp spec fn num_of_u32(n: u32) -> Number;
 pub uninterp spec fn color_red(c: Color) -> Number;
